@@ -298,6 +298,64 @@ def per_callback_flag(ctx):
         ctx.info(f'{f.qualname}:append decided per callback', f.node, 'the append is not guarded by a flag', f)
 
 
+@rule('C12.R9', min_instances=1)
+def error_reports_are_rebuilt_by_class_name_first(ctx):
+    """SECoPError.format() puts `ClassName: ` in front of the text for EVERY error class without a SECoP name of its own - also
+    for subclasses of named errors (SilentCommunicationFailedError, driver classes derived from HardwareError), which travel
+    under the name of their base.  make_secop_error therefore has to try the class-name prefix for every report, whatever
+    the SECoP name is: each way to a return passes the prefix match"""
+    m = ctx.m
+    f = m.func('frappy.errors.make_secop_error')
+    ctx.analysed(f)
+    cfg = CFG(f.node, m, f.module)
+    match = [i for c in calls_in(f.node) if call_attr(c) in ('match', 'fullmatch', 'search') or (call_attr(c) in ('partition', 'split') and "': '" in src(c))
+             for i in cfg.node_of(c)]
+    look = [c for c in calls_in(f.node) if 'clsname2class' in src(c)]
+    if not match or not look:
+        ctx.bad(f'{f.qualname}:class name prefix is tried for every report', f.node, 'make_secop_error no longer looks the class up by the name in front of the text '
+                '(clsname2class): every frappy specific error class arrives as its SECoP base class', f)
+        return
+    rets = [i for n in body_walk(f.node) if isinstance(n, ast.Return) for i in cfg.ids(n)]
+    ok = all(cfg.dominates(match, r) for r in rets)
+    ctx.check(ok, f'{f.qualname}:class name prefix is tried for every report', f.node, 'the prefix match lies on every path to a return',
+              'a return of make_secop_error is reachable without trying the `ClassName: ` prefix (the lookup by SECoP name decides first): an error of a subclass '
+              'without own SECoP name - SilentCommunicationFailedError from every communicator - is rebuilt as its base class with the class name left in the text; '
+              'cache entry and callbacks carry another error than the node raised', f)
+
+
+@rule('C12.R2e', min_instances=1)
+def callback_lists_have_one_update_discipline(ctx):
+    """ProxyClient.callback() fetches the list registered for (cbname, key) ONCE per dispatch and removes a callback that raised
+    UnregisterCallback from THAT list object: this only unregisters it if every other writer changes the registered list in
+    place too.  A writer that stores a new list under the key (copy-on-write in unregister_callback) orphans the list the
+    dispatch is working on - the one-shot callback stays registered and is called again for the next message"""
+    m = ctx.m
+    pc = m.cls('frappy.client.ProxyClient')
+    in_place = []
+    replacing = []
+    for q in [pc.qualname] + m.subclasses(pc.qualname):
+        for f in m.classes[q].methods.values():
+            for c in calls_in(f.node):
+                if call_attr(c) in ('remove', 'append') and isinstance(c.func.value, ast.Name) and \
+                        any('self.callbacks' in src(o) for o in origins(c.func.value, f.node)):
+                    in_place.append((f, c))
+            for n in body_walk(f.node):
+                if isinstance(n, ast.Assign):
+                    for t in n.targets:
+                        if isinstance(t, ast.Subscript) and isinstance(t.value, ast.Subscript) and src(t.value.value) == 'self.callbacks':
+                            replacing.append((f, n))
+    if not in_place:
+        raise AnchorMissing('in-place update of a fetched callback list (cblist.remove / append) not found in ProxyClient')
+    ctx.analysed(in_place[0][0])
+    for f, n in replacing:
+        ctx.analysed(f)
+        ctx.bad(f'{f.qualname}:registered callback lists are changed in place', n, f'`{src(n)}` stores a NEW list under the key while '
+                f'{in_place[0][0].qualname} removes from the list object it fetched (`{src(in_place[0][1])}`): after an unregistration during a dispatch the '
+                'removal of a one-shot callback (UnregisterCallback) hits the orphaned list - the callback stays registered and is invoked again', f)
+    if not replacing:
+        ctx.ok(f'{pc.qualname}:registered callback lists are changed in place', None, f'{len(in_place)} in-place updates, no list is replaced')
+
+
 @rule('C12.R6c', min_instances=1)
 def integers_keep_their_precision_end_to_end(ctx):
     """shared with C01.R3b: node and client both import an integer through IntRange.__call__, which converts the offered
